@@ -16,15 +16,21 @@ import (
 // C15: line-level recognisers and byte classifiers match the spec's definitions.
 
 var (
-	spATX      = spaces.Space{Name: "atx-lines", Doc: "ATX heading lines", Tokens: []string{"#", " ", "\t", "a", "\\"}}
-	spThematic = spaces.Space{Name: "thematic-lines", Doc: "thematic break lines", Tokens: []string{"*", "-", "_", " ", "\t", "a"}}
-	spSetext   = spaces.Space{Name: "setext-lines", Doc: "setext underline lines", Tokens: []string{"=", "-", " ", "\t", "a"}}
-	spFence    = spaces.Space{Name: "fence-lines", Doc: "code fence lines", Tokens: []string{"`", "~", " ", "\t", "a"}}
-	spMarker   = spaces.Space{Name: "marker-lines", Doc: "list marker lines", Tokens: []string{"-", "+", "*", "0", "1", "9", ".", ")", " ", "\t", "a"}}
-	spURI      = spaces.Space{Name: "uri-strings", Doc: "NormalizeURI arguments", Tokens: []string{"a", "%", "2", "G", "f", " ", "é", "<", "\"", "/", "#", "[", "\xc3"}}
-	spEmail    = spaces.Space{Name: "email-strings", Doc: "IsEmailAddress arguments", Tokens: []string{"a", "1", ".", "-", "@", "_", "+", " "}}
-	spAuto     = spaces.Space{Name: "autolink-strings", Doc: "autolink candidates", Tokens: []string{"<", ">", "a", ":", "@", ".", " ", "+", "1", "/"}}
-	eols       = []string{"", "\n", "\r", "\r\n"}
+	spATX       = spaces.Space{Name: "atx-lines", Doc: "ATX heading lines", Tokens: []string{"#", " ", "\t", "a", "\\"}}
+	spThematic  = spaces.Space{Name: "thematic-lines", Doc: "thematic break lines", Tokens: []string{"*", "-", "_", " ", "\t", "a"}}
+	spSetext    = spaces.Space{Name: "setext-lines", Doc: "setext underline lines", Tokens: []string{"=", "-", " ", "\t", "a"}}
+	spFence     = spaces.Space{Name: "fence-lines", Doc: "code fence lines", Tokens: []string{"`", "~", " ", "\t", "a"}}
+	uws         = []string{"\f", "\v", "\u00a0", "\u0085", "\u2003"}
+	spATXU      = spaces.Space{Name: "atx-lines-unicode-space", Doc: "ATX heading lines with non-ASCII and non-spec white space", Tokens: append([]string{"#", " ", "a"}, uws...)}
+	spThematicU = spaces.Space{Name: "thematic-lines-unicode-space", Doc: "thematic break lines with non-spec white space", Tokens: append([]string{"*", "-", " "}, uws...)}
+	spSetextU   = spaces.Space{Name: "setext-lines-unicode-space", Doc: "setext underline lines with non-spec white space", Tokens: append([]string{"=", "-", " "}, uws...)}
+	spFenceU    = spaces.Space{Name: "fence-lines-unicode-space", Doc: "code fence lines with non-spec white space", Tokens: append([]string{"```", "~~~", " ", "a"}, uws...)}
+	spMarkerU   = spaces.Space{Name: "marker-lines-unicode-space", Doc: "list marker lines with non-spec white space", Tokens: append([]string{"-", "1", ".", " ", "a"}, uws...)}
+	spMarker    = spaces.Space{Name: "marker-lines", Doc: "list marker lines", Tokens: []string{"-", "+", "*", "0", "1", "9", ".", ")", " ", "\t", "a"}}
+	spURI       = spaces.Space{Name: "uri-strings", Doc: "NormalizeURI arguments", Tokens: []string{"a", "%", "2", "G", "f", " ", "é", "<", "\"", "/", "#", "[", "\xc3"}}
+	spEmail     = spaces.Space{Name: "email-strings", Doc: "IsEmailAddress arguments", Tokens: []string{"a", "1", ".", "-", "@", "_", "+", " "}}
+	spAuto      = spaces.Space{Name: "autolink-strings", Doc: "autolink candidates", Tokens: []string{"<", ">", "a", ":", "@", ".", " ", "+", "1", "/"}}
+	eols        = []string{"", "\n", "\r", "\r\n"}
 )
 
 func init() {
@@ -61,6 +67,14 @@ func init() {
 			lines(spSetext, 8, 9, c15Setext)
 			lines(spFence, 8, 9, c15Fence)
 			lines(spMarker, 5, 6, c15Marker)
+			// The same recognisers on lines with white space that is NOT the spec's
+			// "space or tab": form feed, vertical tab, NBSP, NEL, EM SPACE - where an
+			// idiomatic bytes.TrimSpace / unicode.IsSpace would go wrong.
+			lines(spATXU, 5, 6, c15ATX)
+			lines(spThematicU, 5, 6, c15Thematic)
+			lines(spSetextU, 5, 6, c15Setext)
+			lines(spFenceU, 5, 6, c15Fence)
+			lines(spMarkerU, 4, 5, c15Marker)
 			strs := func(sp spaces.Space, q, t int, f func(x *X, s string)) {
 				n := c.Pick(q, t)
 				c.Explore(sp.Name, fmt.Sprintf("all strings of <=%d tokens over %q: %s", n, sp.Tokens, sp.Doc), -1, n, func(x *X) {
